@@ -160,30 +160,36 @@ func (r Rules) GetIncludes() []*Include {
 //
 // Note: logs.regCleanLogs helps a lot to do a first cleaning
 func (r Rules) Merge() Rules {
-	for i := 0; i < len(r); i++ {
-		for j := i + 1; j < len(r); j++ {
-			if r[i] == nil && r[j] == nil {
-				r = r.Delete(j)
-				j--
-				continue
-			}
-			if r[i] == nil || r[j] == nil {
-				continue
-			}
-			if r[i].Kind() != r[j].Kind() {
-				continue
-			}
+	// A merged rule can become mergeable with a rule it has already been
+	// compared to: repeat until nothing changes.
+	for merged := true; merged; {
+		merged = false
+		for i := 0; i < len(r); i++ {
+			for j := i + 1; j < len(r); j++ {
+				if r[i] == nil && r[j] == nil {
+					r = r.Delete(j)
+					j--
+					continue
+				}
+				if r[i] == nil || r[j] == nil {
+					continue
+				}
+				if r[i].Kind() != r[j].Kind() {
+					continue
+				}
 
-			// If rules are identical, merge them. Ignore comments
-			if r[i].Kind() != COMMENT && r[i].Compare(r[j]) == 0 {
-				r = r.Delete(j)
-				j--
-				continue
-			}
+				// If rules are identical, merge them. Ignore comments
+				if r[i].Kind() != COMMENT && r[i].Compare(r[j]) == 0 {
+					r = r.Delete(j)
+					j--
+					continue
+				}
 
-			if r[i].Merge(r[j]) {
-				r = r.Delete(j)
-				j--
+				if r[i].Merge(r[j]) {
+					r = r.Delete(j)
+					j--
+					merged = true
+				}
 			}
 		}
 	}
